@@ -36,10 +36,24 @@ def expected_violation(run):
 
 
 def dedupe(path):
-    seen, out = set(), []
+    """distinct behaviours in a fixed order (TLC workers print them in a run-dependent order)"""
+    out = sorted(set(open(path)))
+    with open(path, "w") as f:
+        f.writelines(out)
+    return len(out)
+
+
+def canon_threads(path):
+    """threads are interchangeable (in the model and in the code): keep one representative per renaming class,
+    numbering threads by first appearance; distinct, sorted"""
+    out = set()
     for l in open(path):
-        if l not in seen:
-            seen.add(l); out.append(l)
+        c = json.loads(l)
+        ren = {}
+        for s in c["order"]:
+            s["t"] = ren.setdefault(s["t"], len(ren) + 1)
+        out.add(json.dumps(c, sort_keys=True) + "\n")
+    out = sorted(out)
     with open(path, "w") as f:
         f.writelines(out)
     return len(out)
@@ -74,7 +88,11 @@ def replay_histories(run, b, cases, label):
 
 def negctl_replay(run, b, cases):
     """corrupt one expectation (first lookup of a zone 'hit' instead of 'miss'): the replay must report exactly that step"""
-    lines = [json.loads(l) for i, l in enumerate(open(cases)) if i < 60]
+    allc = [json.loads(l) for l in open(cases)]
+    first = next((i for i, c in enumerate(allc) if any(s["lk"] == "miss" and s["cls"] == "no-fault" and s["kind"] == "ok" for s in c["order"])), None)
+    if first is None:
+        raise ToolError("negative control (replay): no step to corrupt")
+    lines = allc[first:first + 40]
     target = None
     for hi, c in enumerate(lines):
         for si, s in enumerate(c["order"]):
@@ -185,13 +203,17 @@ def run(run):
     expected_violation(run)
     # ---- spec -> impl
     cases, n = run.gen(MC, "gen/Gen_C20_hist.cfg", workers=4, name="hist")
+    if dedupe(cases) != n:
+        raise ToolError("generator printed a behaviour twice")
+    nh = canon_threads(cases)
+    log(f"[gen] hist: {n} complete behaviours = {nh} up to renaming of threads")
     replay_histories(run, b, cases, "hist")
     negctl_replay(run, b, cases)
     if not q:
         sim, n2 = run.gen(MC, "gen/Gen_C20_sim.cfg", workers=4, name="sim", timeout=900,
                           extra_args=["-simulate", "num=60000", "-depth", "60", "-seed", str(run.seed)])
-        n2 = dedupe(sim)
-        log(f"[gen] sim: {n2} distinct random behaviours of the 3x2x3 instance")
+        n2 = canon_threads(sim)
+        log(f"[gen] sim: {n2} distinct random behaviours of the 3x2x3 instance (up to renaming of threads)")
         replay_histories(run, b, sim, "sim")
     # ---- impl -> spec
     all_sess = []
